@@ -380,7 +380,7 @@ structure WFFDefP (ty : String → Bool) (f : FDefP) : Prop where
   specToks : SpecToks false f.specs
   specVals : SpecVals f.specs
   sawType : sawAfter false f.specs = true
-  params : WFPLV f.fd.params
+  params : WFPLV ty f.fd.params
   body : WFSL ty f.body
 
 /-- **`_parse_external_declaration`** on a function definition with a prototype parameter list -/
@@ -490,16 +490,16 @@ def vals (n : Nat) (p : Proto) : List Val :=
   | p0 :: names => (p.dis n).map (declOut (foldSpec n {} p.specs) p0.2 (specNames p0 names))
 end Proto
 
-structure WFProto (p : Proto) : Prop where
+structure WFProto (ty : String → Bool) (p : Proto) : Prop where
   specToks : SpecToks false p.specs
   specVals : SpecVals p.specs
   sawType : sawAfter false p.specs = true
-  params : WFPLV p.fd.params
+  params : WFPLV ty p.fd.params
   more : ∀ it ∈ p.more, WFI it
 
 /-- **`_parse_external_declaration`** on a prototype: the `Decl` carries the `FuncDecl` with its
 `ParamList`; the parameter names are *not* registered -/
-theorem extProto_ok (p : Proto) (hwf : WFProto p) (hty : ∀ x ∈ p.names, env.ty x = false)
+theorem extProto_ok (p : Proto) (hwf : WFProto env.ty p) (hty : ∀ x ∈ p.names, env.ty x = false)
     (s : PState) (rest : List Tk) (hs : SeesT env s (p.flat ++ rest)) (F : Nat) (hF : p.fuel ≤ F) :
     ∃ s', run F .externalDeclaration s = .ok (p.vals s.idx) s' ∧ SeesT env s' rest ∧ s'.idx = s.idx + p.ntoks := by
   obtain ⟨G, rfl⟩ : ∃ G, F = G + 1 := ⟨F - 1, by simp only [Proto.fuel] at hF; omega⟩
@@ -630,7 +630,7 @@ def WFExt (ty : String → Bool) : Ext → Prop
   | .decl dc => WFDcl dc
   | .fdef f => WFFDef ty f
   | .fdefp f => WFFDefP ty f
-  | .proto p => WFProto p
+  | .proto p => WFProto ty p
 
 def extsFlat : List Ext → List Tk
   | [] => []
